@@ -111,7 +111,12 @@ def contiguousRun (cap : Nat) (pub : List (Nat × Nat × Bytes)) (got : List (Na
             let i := g0 + d
             G.contains i || isHeaderMsg (msgAt i) || (cap > 0 && !Classify.isVideoKeyNalu (msgAt i).1 (msgAt i).2.2)
         | _, _ => true
-      hdrOk && gOk && lOk && before && gapOk
+      -- a replayed GOP never holds more frames than the configured cap
+      let capOk := cap == 0 ||
+        (G.foldl (fun (acc : Nat × Bool) i =>
+            let n := if Classify.isVideoKeyNalu (msgAt i).1 (msgAt i).2.2 then 1 else acc.1 + 1
+            (n, acc.2 && n ≤ cap)) (0, true)).2
+      hdrOk && gOk && lOk && before && gapOk && capOk
     if (List.range (min 3 n + 1)).any fun h => (List.range (n - h + 1)).any fun g => okSplit h g
     then "ok" else "bad:not-headers-then-gop-replay-then-one-contiguous-run"
 
